@@ -50,6 +50,7 @@ type HarnessSpec struct {
 	AtomicPkgs []string `json:"atomic_pkgs"`
 	Replay     string   `json:"replay"` // "direct" (default) | "none"
 	Note       string   `json:"note"`
+	Redirects  map[string]string `json:"redirects"` // callee (fully qualified) -> harness function implementing its contract
 	ReplayRepeat int    `json:"replay_repeat"`
 	NativeRace bool     `json:"native_race"`
 	NativeQuiesceMs int `json:"native_quiesce_ms"` // native grace period of vrtWaitQuiescent // native replays run under go test -race // native stress iterations for schedule-dependent counterexamples
@@ -74,6 +75,7 @@ type Engine struct {
 	tier       string
 	opaqueErrT types.Type
 	globalInit func(st *State, g *ssa.Global, o *Object)
+	redirects  map[string]*ssa.Function
 
 	mu            sync.Mutex
 	funcs         map[string]string // function -> file
@@ -95,6 +97,18 @@ type Engine struct {
 }
 
 func (e *Engine) isEngineType(t types.Type) bool { return false }
+
+// redirect replaces a callee by the harness-level Go model registered for it in the spec.
+func (e *Engine) redirect(f FuncV) FuncV {
+	if f.Fn == nil || len(e.redirects) == 0 {
+		return f
+	}
+	if r, ok := e.redirects[fnKey(f.Fn)]; ok {
+		e.noteStub(fnKey(f.Fn) + " -> harness model " + r.Name())
+		return FuncV{Fn: r}
+	}
+	return f
+}
 
 func (e *Engine) noteFunc(fn *ssa.Function) {
 	e.mu.Lock()
